@@ -2486,6 +2486,19 @@ DLLIMPORT int cfg_rmtsec(cfg_t *cfg, const char *name, const char *title)
 	return cfg_opt_rmtsec(cfg_getopt(cfg, name), title);
 }
 
+/* write a double-quoted string that the lexer reads back as str */
+static void cfg_print_quoted(FILE *fp, const char *str)
+{
+	fprintf(fp, "\"");
+	while (str && *str) {
+		if (*str == '"' || *str == '\\' || *str == '$')
+			fprintf(fp, "\\");
+		fprintf(fp, "%c", *str);
+		str++;
+	}
+	fprintf(fp, "\"");
+}
+
 DLLIMPORT int cfg_opt_nprint_var(cfg_opt_t *opt, unsigned int index, FILE *fp)
 {
 	const char *str;
@@ -2506,17 +2519,7 @@ DLLIMPORT int cfg_opt_nprint_var(cfg_opt_t *opt, unsigned int index, FILE *fp)
 
 	case CFGT_STR:
 		str = cfg_opt_getnstr(opt, index);
-		fprintf(fp, "\"");
-		while (str && *str) {
-			if (*str == '"')
-				fprintf(fp, "\\\"");
-			else if (*str == '\\')
-				fprintf(fp, "\\\\");
-			else
-				fprintf(fp, "%c", *str);
-			str++;
-		}
-		fprintf(fp, "\"");
+		cfg_print_quoted(fp, str);
 		break;
 
 	case CFGT_BOOL:
@@ -2560,9 +2563,11 @@ static int cfg_opt_print_pff_indent(cfg_opt_t *opt, FILE *fp,
 		for (i = 0; i < cfg_opt_size(opt); i++) {
 			sec = cfg_opt_getnsec(opt, i);
 			cfg_indent(fp, indent);
-			if (is_set(CFGF_TITLE, opt->flags))
-				fprintf(fp, "%s \"%s\" {\n", opt->name, cfg_title(sec));
-			else
+			if (is_set(CFGF_TITLE, opt->flags)) {
+				fprintf(fp, "%s ", opt->name);
+				cfg_print_quoted(fp, cfg_title(sec));
+				fprintf(fp, " {\n");
+			} else
 				fprintf(fp, "%s {\n", opt->name);
 			cfg_print_pff_indent(sec, fp, pff, indent + 1);
 			cfg_indent(fp, indent);
